@@ -1,11 +1,11 @@
 package main
 
 import (
-	"strconv"
 	"fmt"
 	"go/constant"
 	"go/token"
 	"sort"
+	"strconv"
 	"strings"
 
 	"golang.org/x/tools/go/ssa"
@@ -302,23 +302,29 @@ func ruleRangeWindow(r *Run) {
 	{
 		bad := false
 		var clearCall, nextCall ssa.CallInstruction
-		for _, c := range callsIn(fw) {
-			if callIs(c, mp, "(*rangeAggIterator).clearWindow") {
-				clearCall = c
+		fwGrp := funcGroup(fw)
+		for _, gf := range fwGrp {
+			if gf == cw {
+				continue
 			}
-			if call, ok := c.(*ssa.Call); ok && invokeIs(call, "Next") {
-				nextCall = call
+			for _, c := range callsIn(gf) {
+				if callIs(c, mp, "(*rangeAggIterator).clearWindow") {
+					clearCall = c
+				}
+				if call, ok := c.(*ssa.Call); ok && invokeIs(call, "Next") {
+					nextCall = call
+				}
 			}
 		}
 		if clearCall == nil || nextCall == nil {
 			bad = true
 			ob.Fail(r.pos(fw.Pos()), "clearWindow call=%v iterator Next call=%v", clearCall != nil, nextCall != nil)
 		} else {
-			if !instrDominates(clearCall, nextCall) {
+			if !runsBefore(clearCall, nextCall, fw, fwGrp) {
 				bad = true
 				ob.Fail(r.pos(nextCall.Pos()), "samples are read before the window was cleared")
 			}
-			if clearCall.Common().Args[1] != ssa.Value(fw.Params[1]) {
+			if originValueIn(clearCall.Common().Args[1], fwGrp) != ssa.Value(fw.Params[1]) {
 				bad = true
 				ob.Fail(r.pos(clearCall.Pos()), "clearWindow is given %s, not windowStart", describe(clearCall.Common().Args[1], 0))
 			}
@@ -334,7 +340,7 @@ func ruleRangeWindow(r *Run) {
 				ob.Fail(r.pos(nextCall.Pos()), "a new sample is read although one is still held back (buffered)")
 			}
 			// Next reads into i.entry, and e := i.entry is what is examined
-			if f, base, ok := fieldNameOf(nextCall.Common().Args[0]); !ok || f != "entry" || base != ssa.Value(fw.Params[0]) {
+			if f, base, ok := fieldNameOf(nextCall.Common().Args[0]); !ok || f != "entry" || originValueIn(base, fwGrp) != ssa.Value(fw.Params[0]) {
 				bad = true
 				ob.Fail(r.pos(nextCall.Pos()), "the iterator reads into %s, not i.entry", describe(nextCall.Common().Args[0], 0))
 			}
@@ -975,16 +981,35 @@ func ruleRangeDetails(r *Run) {
 						tag, df = b.X, gf
 					}
 				}
+				// table-driven: the name indexes a constant table that has the conversion names as keys
+				if lk, ok := in.(*ssa.Lookup); ok && isStringType(lk.Index.Type()) && tag == nil {
+					if u, ok := lk.X.(*ssa.UnOp); ok {
+						if g, ok := u.X.(*ssa.Global); ok {
+							if tbl, ok := p.constTable(g); ok {
+								if _, has := tbl[constant.MakeString("bytes").ExactString()]; has {
+									tag, df = lk.Index, gf
+								}
+							}
+						}
+					}
+				}
 			})
 		}
 		if tag == nil {
 			oc.Undecide(r.pos(bs.Pos()), "no dispatch on the unwrap conversion name")
 		} else {
-			want := map[string]string{"": "ParseFloat", "bytes": "convertBytes", "duration": "convertDuration", "duration_seconds": "convertDuration"}
+			want := map[string]string{"": "ParseFloat", "bytes": "convertBytes", "duration": "convertDuration", "duration_seconds": "convertDuration", "\x00unknown": ""}
 			bad := false
+			var cw *feWalker
+			var cst *feState
 			classify := func(v ssa.Value) string {
 				d := describe(v, 0)
-				if f := funcOfValue(v); f != nil {
+				f := funcOfValue(v)
+				if f == nil && cw != nil {
+					f, _ = cw.resolveCallee(cst, v, 0)
+				}
+				if f != nil {
+					d = shortFuncName(f)
 					for _, c := range callsIn(f) {
 						if callIs(c, "strconv", "ParseFloat") {
 							return "ParseFloat"
@@ -1011,6 +1036,7 @@ func ruleRangeDetails(r *Run) {
 						continue
 					}
 					found := false
+					cw, cst = w, e.State
 					for _, st := range e.State.stores {
 						if n, _, ok := fieldNameOf(st.Store.Addr); ok && n == "converter" {
 							got[classify(st.Val.V)] = true
@@ -1059,26 +1085,28 @@ func ruleRangeDetails(r *Run) {
 	} else {
 		bad := false
 		n := 0
-		allInstrs(bb, func(in ssa.Instruction) {
-			st, ok := in.(*ssa.Store)
-			if !ok {
-				return
-			}
-			if f, _, ok := fieldNameOf(st.Addr); !ok || f != "selRange" {
-				return
-			}
-			n++
-			c, ok := st.Val.(*ssa.Call)
-			good := ok && callIs(c, "time", "(Duration).Seconds")
-			if good {
-				f, _, ok := loadOfField(c.Call.Args[0])
-				good = ok && f == "Range"
-			}
-			if !good {
-				bad = true
-				orr.Fail(r.pos(st.Pos()), "the rate divisor is %s, not Range.Seconds()", describe(st.Val, 0))
-			}
-		})
+		for _, gf := range funcGroup(bb) {
+			allInstrs(gf, func(in ssa.Instruction) {
+				st, ok := in.(*ssa.Store)
+				if !ok {
+					return
+				}
+				if f, _, ok := fieldNameOf(st.Addr); !ok || f != "selRange" {
+					return
+				}
+				n++
+				c, ok := originValue(st.Val).(*ssa.Call)
+				good := ok && callIs(c, "time", "(Duration).Seconds")
+				if good {
+					f, _, ok := loadOfField(c.Call.Args[0])
+					good = ok && f == "Range"
+				}
+				if !good {
+					bad = true
+					orr.Fail(r.pos(st.Pos()), "the rate divisor is %s, not Range.Seconds()", describe(st.Val, 0))
+				}
+			})
+		}
 		// Aggregate = preAgg.Aggregate(points) / selRange
 		okDiv := false
 		for _, ret := range returnsOf(rate) {
